@@ -138,7 +138,7 @@ class ExprMixin:
         if n in self.reg.consts:
             return ops.const(self.reg.consts[n])
         if n in self.local_funcs:
-            return V(FN, FuncRef("local", node=self.local_funcs[n]))
+            return V(FN, FuncRef("local", node=self.local_funcs[n], env=st.env, file=self.file, qual=self.cur_qual))
         ck = self.reg.class_for(self.file, n)
         if ck is not None:
             return V(FN, FuncRef("class", cls=ck))
